@@ -216,15 +216,16 @@ def helpers_part(ck, drv, tier, r, corr_broken, machinery):
     # ---- CF selection of the shifts and the flags of CMP, through the real instruction bodies ------------
     from amoco.arch.x64 import cpu_x64
     reqs, cases = [], []
-    for _ in range(N // 3):
-        kind = r.choice(["shl", "shr", "sar"])
-        size = r.choice([8, 32])
-        a, cnt = bvals(r, size), r.randrange(1, 32)
-        cases.append((kind, size, a, cnt))
-        reqs.append({"op": "flags.shcf", "n": size, "a": a, "count": cnt, "kind": kind})
+    for kind in ("shl", "shr", "sar"):
+        for size in (8, 16, 32):
+            top = 1 << size
+            for cnt in sorted(set(c for c in (1, 2, size - 1, size, size + 1, 31, r.randrange(1, 32)) if 1 <= c <= 31)):   # imm8 is masked to 5 bits
+                for a in (top - 1, top >> 1, (top >> 1) - 1, 1, (top >> 1) | 1, bvals(r, size), bvals(r, size)):
+                    cases.append((kind, size, a, cnt))
+                    reqs.append({"op": "flags.shcf", "n": size, "a": a, "count": cnt, "kind": kind})
     for (kind, size, a, cnt), mod in zip(cases, drv.ask_many(reqs)):
         digit = {"shl": 4, "shr": 5, "sar": 7}[kind]
-        code = bytes([0xC0 if size == 8 else 0xC1, 0xC0 | (digit << 3), cnt])       # op al/eax, imm8
+        code = (b"\x66" if size == 16 else b"") + bytes([0xC0 if size == 8 else 0xC1, 0xC0 | (digit << 3), cnt])   # op al/ax/eax, imm8
         i = cpu_x64.disassemble(code)
         m = mapper()
         m[env64.rax] = cst(a, 64)
